@@ -1,4 +1,5 @@
 """C04 - inbound payments are claimable only if complete and authentic; all-or-nothing (structural part)."""
+import collections
 from engine import *
 import obligations
 import ordimpls
@@ -419,3 +420,47 @@ RULES.append(('04.u', 'obligation-carrying values returned by workspace calls (t
 RULES.append(('04.M', 'collection mutations: every reviewed (function, stored collection, mutator class: add / remove / filter / empty / swap / order) triple is still present - an entry that is no longer removed, inserted or drained on one path (rules/mutations.py)', lambda F: mutations.for_property(F, 'C04', '04.M')))
 RULES.append(('04.G', 'guard census: no reviewed call of a workspace function and no reviewed mutation of a stored collection gained a controlling branch condition (an added `&& cond`, early return / continue, more specific match arm in front of an act); counts per call site, name free (rules/guards.py)', lambda F: guards.for_property(F, 'C04', '04.G')))
 RULES.append(('04.W', 'field assignments: every reviewed (function, Type.field) direct assignment is still made - state that a path no longer updates, or updates only conditionally (get_or_insert for an overwrite); generalises NN.R (rules/writes.py)', lambda F: writes.for_property(F, 'C04', '04.W')))
+
+def r04n(F):
+	"""payment-secret expiry: the value compared with the clock (`expiry < highest_seen_timestamp`) is decoded from the byte array whose two leading
+	bytes - which hold the custom min_final_cltv_expiry_delta for the *CustomFinalCltv methods - are masked to zero in that arm; the array the
+	minimum amount is decoded from is masked with nothing but its own method bits (& 31 on byte 0).  Masking the other array leaves the delta in the
+	top 16 bits of the expiry: a payment secret registered with a custom delta never expires"""
+	fn = 'lightning::ln::inbound_payment::verify'
+	fu = F.func(fn)
+	ex = Expr(fu)
+	# byte arrays and the constants and-ed into their elements
+	masks = collections.defaultdict(set)
+	for bi, si, s in fu.stmts():
+		pl, rv = s[1], s[2]
+		if len(pl) == 2 and isinstance(pl[1], str) and pl[1].startswith('[') and rv[0] == 'bin' and rv[1] == 'BitAnd' and rv[3][0] == 'k':
+			masks[pl[0]].add(rv[3][1].get('v'))
+	def root_array(e):
+		for _ in range(12):
+			if e[0] in ('ref', 'deref', 'cast'):
+				e = e[1]
+			elif e[0] == 'call' and e[2]:
+				e = e[2][0]
+			elif e[0] in ('field', 'downcast'):
+				e = e[1]
+			else:
+				break
+		return e[1] if e[0] == 'local' else None
+	exp_arr = amt_arr = None
+	for c in comparisons(fu):
+		a, b = c[4], c[5]
+		ks = leaf_key(a) + '|' + leaf_key(b)
+		if 'highest_seen_timestamp' in ks and 'from_be_bytes' in ks:
+			exp_arr = root_array(a if 'from_be_bytes' in leaf_key(a) else b)
+		if 'total_msat' in ks and 'from_be_bytes' in ks:
+			amt_arr = root_array(a if 'from_be_bytes' in leaf_key(a) else b)
+	if exp_arr is None or amt_arr is None:
+		return [Result('04.n', False, 'anchor:expiry-or-amount-comparison', 'verify: the comparison of the decoded expiry with highest_seen_timestamp / of total_msat with the decoded minimum was not found', where=F.where(fn))]
+	ok1 = 0 in masks.get(exp_arr, set())
+	ok2 = 0 not in masks.get(amt_arr, set())
+	return [
+		Result('04.n', ok1, ('ok:' if ok1 else 'shape:') + 'expiry-delta-bytes-masked', 'verify: the byte array the expiry is decoded from has its leading delta bytes masked to zero (masks %s)' % sorted(masks.get(exp_arr, [])) if ok1 else 'verify: the byte array the expiry is decoded from is never masked (masks %s): for the *CustomFinalCltv methods the min_final_cltv_expiry_delta stays in the top 16 bits of the expiry, which is then never below the clock - the payment secret never expires' % sorted(masks.get(exp_arr, [])), 2, where=F.where(fn)),
+		Result('04.n', ok2, ('ok:' if ok2 else 'shape:') + 'amount-bytes-not-zeroed', 'verify: the byte array the minimum amount is decoded from keeps all bits but the method bits (masks %s)' % sorted(masks.get(amt_arr, [])) if ok2 else 'verify: bytes of the minimum-amount array are masked to zero (masks %s): minimum amounts of 2^48 msat and more are truncated' % sorted(masks.get(amt_arr, [])), 2, where=F.where(fn)),
+	]
+
+RULES.append(('04.n', 'payment-secret expiry: the array the expiry is decoded from has its custom-CLTV-delta bytes masked to zero, the amount array does not (data-flow rule on inbound_payment::verify)', r04n))
